@@ -1,5 +1,6 @@
 import Rare.Base.Proto
 import Rare.Model.C16
+import Rare.Model.C16Cmd
 namespace Rare.Drv.C16
 open Rare Rare.C16 Rare.Proto
 
@@ -64,7 +65,11 @@ def sameAll (rs : List (Except String Bytes)) : String :=
     `wint <key> <int>` – `WriteInt` and `KeyCount` /
     `msm <keys> <values>` – `MarshalStringMapInferred`, members sorted by name /
     `kv <arg>`, `kvmap <args>` – `parseKeyValue`, `parseKeyValuesIntoMap` /
-    `xkey <key> <data> <kvs>` – the emulated `{.}` `{#}` `{.#}` `{#.}` of `rare expression -d … -k …` -/
+    `xkey <key> <data> <kvs>` – the emulated `{.}` `{#}` `{.#}` `{#.}` of `rare expression -d … -k …` /
+    `sfr <bytes>` – `smartFormatResult` / `arr <list>` – `MakeArray` and the split at the separator /
+    `xout <flags> <key> <data> <kvs>` – what `rare expression [-r] [-n] -d … -k … '{key}'` prints /
+    `keyeq <key> <name table> <indices 1> <line 1> <indices 2> <line 2>` – do two matches get the same text?
+      answered from the SPEC (`sameShown`), not by rendering -/
 def handle : List String → String
   | ["json", n, u, nt, ix, ln] =>
     match parseNT nt, parseInts ix, Hex.dec ln with
@@ -150,6 +155,37 @@ def handle : List String → String
       | none => "notjson"
       | some rs => sameAll (rs.map .ok)
     | _, _, _ => "bad-args"
+  | ["sfr", b] =>
+    match Hex.dec b with
+    | some s => s!"ok {Hex.enc (smartFormatResult s)}"
+    | none => "bad-args"
+  | ["arr", l] =>
+    match decHexList l with
+    | some args => s!"ok {Hex.enc (makeArray args)} {hexList (splitSep arraySeparator (makeArray args))}"
+    | none => "bad-args"
+  | ["xout", fl, k, ds, kvs] =>
+    match Hex.dec k, decHexList ds, decHexList kvs with
+    | some key, some data0, some kvl0 =>
+      let data := data0.map cliValue
+      let kvl := kvl0.map cliValue
+      let raw := fl.contains 'r'
+      let nn := fl.contains 'n'
+      match (orders (parseKeyValuesIntoMap kvl)).map fun o => expressionPrints raw nn data kvl o key with
+      | a :: rest => if rest.all (· == a) then s!"ok {Hex.enc a}" else "nondeterministic"
+      | [] => "bad-args"
+    | _, _, _ => "bad-args"
+  | ["keyeq", k, nt, ix1, ln1, ix2, ln2] =>
+    match Hex.dec k, parseNT nt, parseInts ix1, Hex.dec ln1, parseInts ix2, Hex.dec ln2 with
+    | some key, some order, some i1, some l1, some i2, some l2 =>
+      match viewFlags key with
+      | none => "notjson"
+      | some (named, numbered) =>
+        match json named numbered order i1 l1, json named numbered order i2 l2 with
+        | .ok a, .ok b =>
+          let c := ((a ++ b).filter fun x => x < 0x20).length
+          s!"ok eq={if sameShown named numbered order i1 l1 i2 l2 then 1 else 0} c={c}"
+        | _, _ => "panic"
+    | _, _, _, _, _, _ => "bad-args"
   | _ => "bad-op"
 
 end Rare.Drv.C16
